@@ -55,6 +55,8 @@ Inductive ev :=
 | ExecLookup (id : N) (found : bool)
 | ExecDeliver (id : N)
 | ExecDeleted (id : N) (deleted : bool)
+| ExecAbandon (id : N)                (* handleResponse returns after the lookup without delivering: the response cannot
+                                         be used (a subscribing call answered with something that is not a channel id) *)
 | CifDeliver (id : N)
 | CifCleared
 | ReconnBegin
@@ -203,6 +205,12 @@ Definition step (v : cvariant) (s : st) (e : ev) : option st :=
               else None
             else Some (set_exe (set_inflight s (remove_id id (inflight s))) EIdle)
           else None
+      | _ => None
+      end
+  | ExecAbandon id =>
+      (* nothing is sent to the caller and nothing is removed: the request stays registered in flight *)
+      match exe s with
+      | ELooked k att => if k =? id then Some (set_exe s EIdle) else None
       | _ => None
       end
   | CifDeliver id =>
